@@ -20,6 +20,7 @@ import time
 HERE = os.path.dirname(os.path.abspath(__file__))
 PY = sys.executable
 PROPS = ["C20", "C01", "C02", "C06", "C12"]
+FIRST_RUNS = {"C20": 3000, "C01": 3000, "C02": 3000, "C06": 4000, "C12": 4000}
 
 
 def digests(prop, a, b, hashseed, extra_env=None):
@@ -208,7 +209,11 @@ def seeded(ids):
                     continue
                 os.utime(cfile, None)
             t0 = time.time()
-            rc, out, err = run_check_against(src, meta["property"])
+            # a short batch first (most changes are reported within the first runs), the full quick tier only if that is clean
+            os.environ["VERIF_NO_MINIMISE"] = "1"
+            rc, out, err = run_check_against(src, meta["property"], runs=FIRST_RUNS.get(meta["property"], 3000))
+            if rc != 1:
+                rc, out, err = run_check_against(src, meta["property"])
             sig = [l for l in out.splitlines() if l.startswith("violation signature")]
             ok = rc == 1
             expect = meta.get("expected", "detected")
